@@ -41,7 +41,7 @@ N = {"quick": {"n": 40000, "nd": 240, "lganm": 330, "anm": 240, "shape": 180}, "
 
 def _iv(rng, p, allow_point=True, anm_safe=False):
     d = {"do": {}, "noise": {}, "shift": {}}
-    for j in range(p):
+    for j in (int(v) for v in rng.permutation(p)):     # keys inserted in random, not ascending, order
         r = rng.random()
         if r > 0.45:
             continue
@@ -66,6 +66,9 @@ def _lganm(rng):
     means = np.round(rng.uniform(-3, 3, p), 2)
     variances = np.round(rng.uniform(0.05, 5, p), 2)
     variances[rng.random(p) < 0.08] = 0.0
+    if rng.random() < 0.2:      # the law is scale-equivariant: tiny / huge units
+        sc = float(10.0 ** rng.integers(-9, 7))
+        means, variances = means * sc, variances * sc * sc
     return W, means, variances
 
 
@@ -199,17 +202,24 @@ def judge(family, case, rec):
         return
     rec.count("judged:" + family)
     d = np.diag(pop_cov).copy()
-    # a population variance that is zero up to the rounding noise of the covariance computation is a point mass
-    d[d <= 1e-13 * max(float(d.max()) if p else 0.0, 1e-300)] = 0.0
+    dmax = max(float(d.max()) if p else 0.0, 1e-300)
+    # three classes of population variance: (a) zero up to the rounding noise of the covariance computation -> point mass,
+    # judged as a constant; (b) positive but within 1e-9 of the largest variance -> not judged (neither the z-scores nor the
+    # point-mass tolerance are meaningful there; counted); (c) live -> moment / law tests
+    pm_mask = d <= 1e-14 * dmax
+    grey = (~pm_mask) & (d <= 1e-9 * dmax)
+    if grey.any():
+        rec.count("variables-with-indeterminate-tiny-variance(not judged)", int(grey.sum()))
+    d[pm_mask | grey] = 0.0
     live = d > 0
     pop_cov = pop_cov.copy()
     pop_cov[~live, :] = 0.0
     pop_cov[:, ~live] = 0.0
     tr = float(d.sum())
-    tol_pm = 1e-6 * math.sqrt(max(tr, 0.0)) + 1e-9 * float(np.abs(pop_mean).max()) + 1e-12
+    tol_pm = 5e-6 * math.sqrt(max(tr, 0.0)) + 1e-9 * float(np.abs(pop_mean).max()) + 1e-300
     # point masses
     for j in range(p):
-        if d[j] == 0:
+        if pm_mask[j]:
             rec.count("point-mass-columns")
             dev = float(np.max(np.abs(Xs[:, j] - pop_mean[j])))
             rec.max("max-point-mass-deviation/tolerance", dev / tol_pm)
@@ -218,11 +228,11 @@ def judge(family, case, rec):
                               "variable %d has population variance 0 but deviates by %.3g from %.6g (tolerance %.3g)" % (j, dev, pop_mean[j], tol_pm))
     # singular covariance: no mass outside the support
     ev, evec = np.linalg.eigh((pop_cov + pop_cov.T) / 2)
-    null = evec[:, ev <= 1e-12 * max(ev.max(), 1e-300)] if p else np.zeros((0, 0))
-    if null.shape[1] and tr > 0:
+    null = evec[:, ev <= 1e-14 * max(ev.max(), 1e-300)] if p else np.zeros((0, 0))
+    if null.shape[1] and tr > 0 and not grey.any():
         rec.count("singular-covariances")
         res = float(np.max(np.abs((Xs - pop_mean) @ null)))
-        tol_ns = 1e-6 * math.sqrt(tr) * math.sqrt(p) + 1e-9 * float(np.abs(pop_mean).max()) * p + 1e-10 * math.sqrt(max(ev.max(), 0))
+        tol_ns = 5e-6 * math.sqrt(tr) * math.sqrt(p) + 1e-9 * float(np.abs(pop_mean).max()) * p
         rec.max("max-null-space-residual/tolerance", res / tol_ns)
         if res > tol_ns:
             rec.violation("C04:%s-mass-outside-support" % family, family, case,
@@ -256,8 +266,10 @@ def judge(family, case, rec):
             continue
         col = Xs[:, j]
         dups = n - len(np.unique(col))
-        rec.max("max-duplicated-values", dups)
-        if dups >= 10:
+        # coincidences among doubles: a continuous law with sd s around m has ~ s/ulp(m) representable values per sd
+        expected = S.expected_coincidences(n, abs(pop_mean[j]) + 4 * math.sqrt(d[j]), math.sqrt(d[j]))
+        rec.max("max-duplicated-values-above-expectation", dups - 10 * expected)
+        if dups >= 10 + 10 * expected:
             rec.violation("C04:%s-repeated-rows" % family, family, case, "variable %d: %d of %d values repeat an earlier one: rows are not i.i.d." % (j, dups, n))
             break
         zl = S.z_lag1(col)
